@@ -108,7 +108,7 @@ def gen_coqproject():
             raise RuntimeError("coq_makefile failed: " + out)
 
 
-def coq_make(targets=None, timeout=3000, keep_going=False):
+def coq_make(targets=None, timeout=1500, keep_going=False):
     """Full .vo build (no -vos) of the given targets (default: all)."""
     with Lock():
         gen_coqproject()
@@ -276,12 +276,20 @@ def coq_list_result(out, name):
 # ------------------------------------------------------------------------------------------
 
 def go_build(tool, scratch, tags="verif"):
-    """Builds harness/cmd/<tool> against /repo's current working tree."""
-    with Lock():
-        shutil.copyfile(os.path.join(REPO, "go.sum"), os.path.join(HARNESS, "go.sum"))
-        out_bin = os.path.join(scratch, "bin-" + tool)
-        rc, out, dt = sh(["go", "build", "-tags", tags, "-o", out_bin, "./cmd/" + tool],
-                         cwd=HARNESS, env=env_go(), timeout=1500)
+    """Builds harness/cmd/<tool> against the current working tree of REPO (default /repo; VERIF_REPO
+    points the whole check at a scratch worktree).  The harness module is copied into the scratch
+    directory first (its go.mod `replace` is pointed at REPO, go.sum taken from REPO), so /verif is not
+    written to and concurrent checks do not interfere."""
+    hdir = os.path.join(scratch, "harness")
+    if not os.path.exists(hdir):
+        shutil.copytree(HARNESS, hdir, ignore=shutil.ignore_patterns("go.sum"))
+        gm = open(os.path.join(hdir, "go.mod")).read()
+        gm = re.sub(r"replace github.com/ErdemOzgen/blackdagger => \S+", "replace github.com/ErdemOzgen/blackdagger => " + REPO, gm)
+        open(os.path.join(hdir, "go.mod"), "w").write(gm)
+        shutil.copyfile(os.path.join(REPO, "go.sum"), os.path.join(hdir, "go.sum"))
+    out_bin = os.path.join(scratch, "bin-" + tool)
+    rc, out, dt = sh(["go", "build", "-tags", tags, "-o", out_bin, "./cmd/" + tool],
+                     cwd=hdir, env=env_go(), timeout=1500)
     if rc != 0:
         return None, out, dt
     return out_bin, out, dt
@@ -376,6 +384,24 @@ class Rng:
 # Check context: findings, violations, evidence
 # ------------------------------------------------------------------------------------------
 
+def load_known():
+    """known_findings.json (committed, never written at run time) plus per-property fragments
+    known_findings.d/*.json (same format; merged into the single file by tools/gen_manifest.py)."""
+    out = []
+    kf = os.path.join(VERIF, "known_findings.json")
+    if os.path.exists(kf):
+        out += json.load(open(kf))
+    d = os.path.join(VERIF, "known_findings.d")
+    if os.path.isdir(d):
+        ids = {k.get("id") for k in out}
+        for f in sorted(os.listdir(d)):
+            if f.endswith(".json"):
+                for k in json.load(open(os.path.join(d, f))):
+                    if k.get("id") not in ids:
+                        out.append(k)
+    return out
+
+
 class Ctx:
     def __init__(self, pid, tier, seed):
         self.pid = pid
@@ -391,9 +417,7 @@ class Ctx:
         self.known_hits = {}     # finding id -> count
         self.notes = []
         self.level = "proof"
-        kf = os.path.join(VERIF, "known_findings.json")
-        self.known = [k for k in (json.load(open(kf)) if os.path.exists(kf) else [])
-                      if k.get("property") == pid and k.get("state") == "known"]
+        self.known = [k for k in load_known() if k.get("property") == pid and k.get("state") == "known"]
 
     # -- proofs ------------------------------------------------------------------------
     def proofs(self, extra=()):
